@@ -252,26 +252,31 @@ pub fn optimize(code: Vec<UnOptCode>, level: u8) -> Result<(OptState, Vec<OptCod
     let mut state = OptState::new(size);
 
     if level >= 2 {
-        let mut out = io::CustomWriter::new(|_| Result::Ok(()));
-        let mut err = io::CustomWriter::new(|_| Result::Ok(()));
+        let mut out_str = String::new();
+        let mut err_str = String::new();
 
         let mut idx = opt_code_vec.len();
         for (i, opt_code) in opt_code_vec.iter().enumerate() {
+            // output of a command that is rolled back must be rolled back too
+            let mut out = io::CustomWriter::new(|_| Result::Ok(()));
+            let mut err = io::CustomWriter::new(|_| Result::Ok(()));
             let (new_state, next) = opt_execute(&mut stdin(), &mut out, &mut err, state, opt_code)?;
             state = new_state;
             if !next {
                 idx = i;
                 break;
             }
+            out_str.push_str(&out.to_string()?);
+            err_str.push_str(&err.to_string()?);
         }
         opt_code_vec = opt_code_vec[idx..].to_vec();
 
         state
             .get_stack(1)
-            .extend(out.to_string()?.chars().map(|x| Num::from_num(x as isize)));
+            .extend(out_str.chars().map(|x| Num::from_num(x as isize)));
         state
             .get_stack(2)
-            .extend(err.to_string()?.chars().map(|x| Num::from_num(x as isize)));
+            .extend(err_str.chars().map(|x| Num::from_num(x as isize)));
     }
 
     Ok((state, opt_code_vec))
